@@ -30,6 +30,7 @@ type Config struct {
 	Index    uint64            `json:"index"`           // run index (also the enumeration index of exhaustive sub-modes)
 	Group    uint64            `json:"group,omitempty"` // exhaustive sub-modes: runs Index/Group share one tape seed, Index%Group enumerates
 	Params   map[string]string `json:"params,omitempty"`
+	Arch     string            `json:"arch,omitempty"` // GOARCH of the binary that recorded a replay file, when it is not amd64
 }
 
 // Run is the context of one simulated execution.
